@@ -1,10 +1,16 @@
 #!/usr/bin/env python3
-"""tools/gen_tables.py -> markdown tables for DESIGN.md: dispositions (known_findings.json) and seeded changes (seeded/*/meta.json)"""
+"""tools/gen_tables.py [--write] -> markdown tables for DESIGN.md: dispositions (known_findings.json) and seeded changes (seeded/*/meta.json)"""
 import glob
+import io
 import json
 import os
+import re
+import sys
 
 HERE = os.path.dirname(os.path.dirname(os.path.abspath(__file__)))
+WRITE = "--write" in sys.argv
+if WRITE:
+    _out, sys.stdout = sys.stdout, io.StringIO()
 k = json.load(open(os.path.join(HERE, "known_findings.json")))
 print("#### Repaired (`fix:` commits in /repo, one defect each; `fixed` entries suppress nothing)\n")
 print("| property | commit | what failed (the check that reported it now passes without a KNOWN-FINDING line) |")
@@ -37,3 +43,11 @@ for d in sorted(glob.glob(os.path.join(HERE, "seeded", "*"))):
                 break
     print("| %s | %s | %s | %s | %s | %s | %s |" % (os.path.basename(d), ", ".join(os.path.basename(f) for f in m.get("files", [])), m.get("trigger", "")[:160].replace("|", "\\|").replace("\n", " "),
                                    m.get("first_run", "?"), ", ".join(caught) or "**missed**", "; ".join("`%s`" % s[:60] for s in sigs[:2]), m.get("strengthening", "")))
+
+if WRITE:
+    text, sys.stdout = sys.stdout.getvalue(), _out
+    p = os.path.join(HERE, "DESIGN.md")
+    d = open(p).read()
+    d = re.sub(r"<!-- TABLES:BEGIN -->.*?<!-- TABLES:END -->", lambda m: "<!-- TABLES:BEGIN -->\n" + text + "\n<!-- TABLES:END -->", d, flags=re.S)
+    open(p, "w").write(d)
+    print("DESIGN.md tables rewritten")
